@@ -143,7 +143,10 @@ fn hostile_line(rng: &mut Rng, k: &Knobs, ctx: &mut Ctx) -> String {
         return statement(rng);
     }
     let mut r = rng.below(total);
-    let body = if r < k.w_soup {
+    let body = if r < k.w_soup && rng.chance(1, 3) {
+        ctx.count("fault.hostile_text.foreign_form");
+        foreign_form(rng)
+    } else if r < k.w_soup {
         ctx.count("fault.hostile_text.token_soup");
         token_soup(rng, 14)
     } else {
